@@ -25,6 +25,10 @@ MANIFEST = dict(
     technique="Lean 4 proof (refinement of a pointer model to a chain specification, forest invariant) + "
               "model/impl correspondence on real objects",
     design="DESIGN.md §6 C12")
+MANIFEST["note"] += (" Constants and limits of the C++ source that the model restates (translator/gen_limits.py -> Gen/Limits.lean: "
+                     "compiled probe + preprocessed function bodies at named anchors) are tied to the model's numerals by the "
+                     "theorems of lean/TinsModel/Props/Limits/C12.lean (audit: Audit/LimitsC12.lean); tools/LIMITS-INVENTORY.md lists "
+                     "what is tied and what is not.")
 
 # class table: must agree with harness/c12_ownership.cpp (checked at run time through the `classes` op)
 KINDS = {"p": 0, "c": 1, "f": 2}
